@@ -3,6 +3,9 @@ CONSTANTS
   Kinds = {"cdef", "cpdef", "meth", "cpmeth"}
   CrossPtr = TRUE
   Legacy = {FALSE}
+  WTypes = {"schar", "uchar", "short", "ushort", "uint", "ulong", "llong", "float"}
+  WKinds = {"cdef", "cpdef"}
+  SentCast = "rtype"
   Dump = TRUE
 INVARIANT ImplAgrees
 INVARIANT ErrConsistent
